@@ -77,6 +77,13 @@ if ok:
     needs = {}
     if os.path.exists('/tmp/mut/needs.json'):
         needs = json.load(open('/tmp/mut/needs.json'))
+    if os.path.exists('/tmp/mut/needs.jsonl'):
+        for l in open('/tmp/mut/needs.jsonl'):
+            try:
+                d_ = json.loads(l)
+                needs[d_['id']] = d_['needs']
+            except Exception:
+                pass
     readme = open(os.path.join(O, 'README.md')).read() if os.path.exists(os.path.join(O, 'README.md')) else ''
     meta = {
         'property': ID,
